@@ -268,4 +268,5 @@ func c09(p *model.Prog, r *report.Result) {
 	}
 	c09Placement(p, r)
 	c09r6(p, r)
+	c09r7(p, r)
 }
